@@ -549,6 +549,9 @@ type Case struct {
 	Script Script    `json:"script"`
 	ReqHdr []HdrSpec `json:"req_hdr,omitempty"`
 	Class  string    `json:"class,omitempty"` // generator's input class (part of finding keys)
+	// Hop are hop-by-hop (connection-specific) request headers of an HTTP/1
+	// front, sent in addition to ReqHdr: they must not become metadata.
+	Hop [][2]string `json:"hop,omitempty"`
 	// Target: "" = the handler is registered on the mux; "proxy" = it runs on a
 	// real grpc.Server that the mux reaches through RegisterConn.
 	Target string `json:"target,omitempty"`
@@ -650,6 +653,9 @@ func (c *Case) reqHeaders(h http.Header, canonical bool) {
 			k = http.CanonicalHeaderKey(k)
 		}
 		h[k] = append(h[k], hs.wire()...)
+	}
+	for _, hv := range c.Hop {
+		h[hv[0]] = append(h[hv[0]], hv[1])
 	}
 }
 
